@@ -231,7 +231,7 @@ func rtCheck(c RTCase, r *kit.R) {
 	go func() {
 		var out rres
 		buf := make([]byte, c.ReadBuf)
-		for out.calls = 0; out.calls < 200000; out.calls++ {
+		for out.calls = 0; out.calls < total+len(c.Cuts)+1000; out.calls++ { // every call returns >= 1 byte, a timeout or the end
 			n, err := reader.Read(buf)
 			out.got = append(out.got, buf[:n]...)
 			if err != nil {
